@@ -175,13 +175,67 @@ def explore(ctx, nprog, reps):
             body = "; ".join(rd.r(c) for c in cmds)
             lines.append("body() { %s; }" % body)
             lines.append(MEASURE)
-            lines.append("i=0; while [ $i -lt %d ]; do echo ITER; body; i=$((i+1)); done" % n)
+            # the counter must not be `i`: the generated `for i in …` loops assign it (with `i` the loop
+            # never ended for N > 4 whenever the body held a for loop - the TIMEOUTs seen with seed 1)
+            lines.append("vk=0; while [ $vk -lt %d ]; do echo ITER; body; vk=$((vk+1)); done" % n)
             lines.append(MEASURE)
             f = ["f", "v", "\n".join(lines) + "\n"]
             for nm, c in rd.files.items():
                 f += [nm, c]
             cases.append(f)
-    out = ctx.impl("trapsproc", cases, shards=min(core.NPROC, 8), timeout=3000)
+    FIRST_BUDGET = 60
+    out = ctx.impl("trapsproc", cases, shards=min(core.NPROC, 8), timeout=3000,
+                   env={"VERIF_CASE_TIMEOUT": str(FIRST_BUDGET), "VERIF_CASE_CPU": str(4 * FIRST_BUDGET)})
+
+    def elapsed(line):
+        f = core.dec_line(line)
+        try:
+            return int(f[2]) / 1000.0
+        except (IndexError, ValueError):
+            return None
+
+    def finished(line):
+        return bool(line) and not line.startswith(("TIMEOUT", "DIED", "SPAWNFAIL"))
+
+    # A run that exceeds its wall budget says nothing about leaks: the body x N may simply take longer than
+    # the budget on a loaded machine. Such a case is re-run alone with a budget scaled by N and by the
+    # measured time of one iteration; it is a violation only if it still does not finish although one
+    # iteration does (within a budget the check can afford); otherwise it is recorded as inconclusive.
+    inconclusive = []
+    nrep = len(reps)
+    for pi in range(len(progs)):
+        base = pi * nrep
+        for j, n in enumerate(reps):
+            k = base + j
+            if finished(out[k]) or not out[k].startswith("TIMEOUT"):
+                continue
+            one = out[base] if reps[0] == 1 else None
+            t1 = elapsed(one) if one and finished(one) else None
+            if t1 is None:
+                # not even the single iteration is known to finish: try it alone, generously
+                r1 = ctx.impl("trapsproc", [cases[base]], shards=1, timeout=1200,
+                              env={"VERIF_CASE_TIMEOUT": "300", "VERIF_CASE_CPU": "1200"})[0]
+                if finished(r1):
+                    out[base] = r1
+                    t1 = elapsed(r1)
+            if t1 is None:
+                inconclusive.append({"n": n, "why": "one iteration did not finish within 300 s either", "script": cases[k][2][:400]})
+                continue
+            if n == 1:
+                continue   # replaced above
+            budget = int(60 + 4 * n * max(t1, 0.05))
+            if budget > 900:
+                inconclusive.append({"n": n, "one_iteration_s": t1, "needed_budget_s": budget,
+                                     "why": "budget beyond what the check can afford", "script": cases[k][2][:400]})
+                continue
+            r = ctx.impl("trapsproc", [cases[k]], shards=1, timeout=budget + 60,
+                         env={"VERIF_CASE_TIMEOUT": str(budget), "VERIF_CASE_CPU": str(4 * budget)})[0]
+            if finished(r):
+                out[k] = r
+                inconclusive.append({"n": n, "one_iteration_s": t1, "why": "finished in %.1f s when re-run alone (budget %d s)"
+                                     % (elapsed(r) or -1, budget), "resolved": True})
+            else:
+                out[k] = "STUCK one iteration takes %.2f s, %d iterations did not finish in %d s" % (t1, n, budget)
     bad = []
     offsets = []
     k = 0
@@ -189,17 +243,25 @@ def explore(ctx, nprog, reps):
     for funs, cmds in progs:
         first_iter = None
         per_n = {}
+        per_iter_time = {}
         for n in reps:
             line = out[k]; case = cases[k]; k += 1
-            if line.startswith(("TIMEOUT", "DIED", "SPAWNFAIL")):
+            if line.startswith("STUCK"):
+                bad.append({"script": case[2], "why": line}); continue
+            if line.startswith("TIMEOUT"):
+                continue   # recorded under inconclusive_timeouts
+            if line.startswith(("DIED", "SPAWNFAIL")):
                 bad.append({"script": case[2], "why": line}); continue
             f = core.dec_line(line)
             text = f[1] if len(f) > 1 else ""
             ls = text.split("\n")
             rs = [l for l in ls if l.startswith("R ")]
             if len(rs) != 10:
-                bad.append({"script": case[2], "why": "the loop did not finish (%d measurements)" % len(rs), "tail": ls[-5:]}); continue
+                bad.append({"script": case[2], "why": "the loop did not finish (%d measurements, status %s)" % (len(rs), f[0] if f else "?"),
+                            "tail": ls[-5:]}); continue
             measured += 1
+            if elapsed(line) is not None:
+                per_iter_time[n] = elapsed(line) / n
             before, after = phase_min(rs[:5]), phase_min(rs[5:])
             if before != after:
                 # lazily created runtime descriptors (signal pipe, pidfd socket of the first child) show
@@ -220,8 +282,18 @@ def explore(ctx, nprog, reps):
         if lo and hi and (hi[0] - lo[0] >= 20 or hi[1] - lo[1] >= 20):
             bad.append({"script": cases[k - 1][2], "why": "(descriptors, zombie children) grow with the number of "
                         "iterations: %r" % sorted(per_n.items())})
+        # the k-th iteration must not get slower: time per iteration at the largest N against N = 50
+        # (both long enough to average out start-up); a factor 10 is far beyond scheduling noise
+        if len(reps) >= 4 and reps[-2] in per_iter_time and reps[-1] in per_iter_time:
+            a_, b_ = per_iter_time[reps[-2]], per_iter_time[reps[-1]]
+            if a_ > 0.002 and b_ > 10 * a_:
+                bad.append({"script": cases[k - 1][2], "why": "time per iteration grows with the number of iterations: "
+                            "%.4f s at N=%d, %.4f s at N=%d" % (a_, reps[-2], b_, reps[-1])})
+    unresolved = [x for x in inconclusive if not x.get("resolved")]
     return {"programs": nprog, "repetitions": list(reps), "runs_measured": measured, "anomalies": bad[:5], "anomaly_count": len(bad),
-            "constant_offsets_seen_not_alarmed": offsets[:5], "constant_offset_count": len(offsets)}
+            "constant_offsets_seen_not_alarmed": offsets[:5], "constant_offset_count": len(offsets),
+            "inconclusive_timeouts": unresolved[:10], "inconclusive_timeout_count": len(unresolved),
+            "timeouts_resolved_by_rerun": len(inconclusive) - len(unresolved)}
 
 
 def run(ctx):
@@ -255,7 +327,11 @@ def run(ctx):
         "samples": [{"commands": ics[0][2:2 + int(ics[0][1])]}, {"commands": ics[-1][2:2 + int(ics[-1][1])]}],
         "distribution": {"programs_with_node_kind": kinds, "session_stats": st,
                          "process_level_exploration_not_proof": ex},
-        "notes": ["process-level measurements are exploration, not proof"],
+        "notes": ["process-level measurements are exploration, not proof",
+                  "inconclusive_timeouts (exploration runs that exceeded their wall budget and could not be decided): %d; "
+                  "resolved by a re-run alone with a budget scaled by N: %d"
+                  % (ex["inconclusive_timeout_count"], ex["timeouts_resolved_by_rerun"])],
+        "inconclusive_timeouts": ex["inconclusive_timeouts"],
         "extraction_crosscheck": {"cases": len(sidx), "agree": len(sidx) - len(bad)},
         "model_mismatches": mism,
         "spec_violations": specv,
